@@ -508,4 +508,284 @@ example :
     rw [this, List.take_append_drop, List.take_append_drop]
   rw [framing_independent cmds _ hs hc]
 
+
+/-! ## the reply side: every RESP2 reply is one well-formed value on the wire, binary-safe -/
+
+mutual
+  /-- a RESP2 reply whose numbers fit the wire format (Go `int64` counts and lengths) -/
+  def Value.wire : Value → Bool
+    | .simple _ | .error _ | .nil => true
+    | .int i => inRange64 i
+    | .bulk b => decide (b.length < 2 ^ 63)
+    | .array xs => decide (xs.length < 2 ^ 63) && Value.allWire xs
+    | _ => false
+  def Value.allWire : List Value → Bool
+    | [] => true
+    | x :: xs => x.wire && Value.allWire xs
+end
+
+mutual
+  /-- what a reader gets back: CR and LF inside a status line were sent as spaces; everything else
+      byte for byte -/
+  def canon : Value → Value
+    | .simple s => .simple (lineSafe s)
+    | .error s => .error (lineSafe s)
+    | .array xs => .array (canonList xs)
+    | v => v
+  def canonList : List Value → List Value
+    | [] => []
+    | x :: xs => canon x :: canonList xs
+end
+
+mutual
+  /-- recursion fuel the parser needs for a value -/
+  def need : Value → Nat
+    | .array xs => needList xs + 1
+    | _ => 1
+  def needList : List Value → Nat
+    | [] => 1
+    | x :: xs => max (need x + 1) (needList xs + 1)
+end
+
+theorem lineSafe_no_cr (s : Bytes) : ∀ c ∈ lineSafe s, c ≠ 13 := by
+  intro c hc
+  unfold lineSafe at hc
+  obtain ⟨b, _, hb⟩ := List.mem_map.mp hc
+  split at hb
+  · rw [← hb]; decide
+  · rename_i h
+    rw [← hb]
+    intro h13
+    simp [h13] at h
+
+theorem parse_simple (s rest : Bytes) (fuel pos : Nat) :
+    parseValue (fuel + 1) false (ser (.simple s) ++ rest) pos =
+      .ok (.simple (lineSafe s)) rest (pos + (ser (.simple s)).length) := by
+  have hline : ∀ c ∈ (43 : UInt8) :: lineSafe s, c ≠ 13 := by
+    intro c hc
+    rcases List.mem_cons.mp hc with e | e
+    · subst e; decide
+    · exact lineSafe_no_cr s c e
+  have hser : ser (.simple s) ++ rest = ((43 : UInt8) :: lineSafe s) ++ 13 :: 10 :: rest := by
+    simp [ser, crlf, List.append_assoc]
+  rw [hser]
+  unfold parseValue
+  rw [splitLine_line _ _ hline]
+  simp [ser, crlf]
+  omega
+
+theorem parse_error (s rest : Bytes) (fuel pos : Nat) :
+    parseValue (fuel + 1) false (ser (.error s) ++ rest) pos =
+      .ok (.error (lineSafe s)) rest (pos + (ser (.error s)).length) := by
+  have hline : ∀ c ∈ (45 : UInt8) :: lineSafe s, c ≠ 13 := by
+    intro c hc
+    rcases List.mem_cons.mp hc with e | e
+    · subst e; decide
+    · exact lineSafe_no_cr s c e
+  have hser : ser (.error s) ++ rest = ((45 : UInt8) :: lineSafe s) ++ 13 :: 10 :: rest := by
+    simp [ser, crlf, List.append_assoc]
+  rw [hser]
+  unfold parseValue
+  rw [splitLine_line _ _ hline]
+  simp [ser, crlf]
+  omega
+
+theorem sb_nil : sb "$-1\r\n" = [36, 45, 49, 13, 10] := by decide +kernel
+
+theorem parse_nil (rest : Bytes) (fuel pos : Nat) :
+    parseValue (fuel + 1) false (ser .nil ++ rest) pos = .ok .nil rest (pos + (ser Value.nil).length) := by
+  have hser : ser .nil ++ rest = [36, 45, 49] ++ 13 :: 10 :: rest := by simp [ser, sb_nil]
+  rw [hser]
+  unfold parseValue
+  rw [splitLine_line _ _ (by decide)]
+  have h1 : lineCount [36, 45, 49] = some (-1) := by decide +kernel
+  have h2 : ([36, 45, 49] == sb "$?") = false := by rw [sb_dollarq]; decide
+  simp [h1, h2, ser, sb_nil]
+
+theorem parseInt64_showInt (i : Int) (h : inRange64 i = true) : parseInt64 (showInt i) = some i := by
+  unfold inRange64 twoP63 at h
+  simp only [Bool.and_eq_true, decide_eq_true_eq] at h
+  unfold showInt
+  split
+  · rename_i hneg
+    obtain ⟨hv, hall, hne, _⟩ := natDigits_spec i.natAbs
+    unfold parseInt64 parseDec
+    simp only [beq_self_eq_true, ↓reduceIte]
+    have he : (natDigits i.natAbs).isEmpty = false := by
+      cases hd : natDigits i.natAbs with
+      | nil => exact absurd hd hne
+      | cons _ _ => rfl
+    have hall' : (natDigits i.natAbs).all isDigit = true := by
+      rw [List.all_eq_true]; intro x hx; exact (hall x hx).1
+    simp only [he, hall', Bool.not_true, Bool.or_self, Bool.false_eq_true, ↓reduceIte, hv]
+    have e : -((i.natAbs : Nat) : Int) = i := by omega
+    rw [e]
+    have : inRange64 i = true := by
+      unfold inRange64 twoP63
+      simp only [Bool.and_eq_true, decide_eq_true_eq]; omega
+    simp [this]
+  · rename_i hpos
+    have hlt : i.natAbs < 2 ^ 63 := by
+      have : (2:Nat)^63 = 9223372036854775808 := by decide
+      omega
+    rw [parseInt64_natDigits _ hlt]
+    congr 1
+    omega
+
+theorem showInt_no_cr (i : Int) : ∀ c ∈ showInt i, c ≠ 13 := by
+  intro c hc
+  obtain ⟨_, hall, _, _⟩ := natDigits_spec i.natAbs
+  unfold showInt at hc
+  split at hc
+  · rcases List.mem_cons.mp hc with e | e
+    · subst e; decide
+    · exact (hall c e).2
+  · exact (hall c hc).2
+
+theorem parse_int (i : Int) (rest : Bytes) (fuel pos : Nat) (h : inRange64 i = true) :
+    parseValue (fuel + 1) false (ser (.int i) ++ rest) pos = .ok (.int i) rest (pos + (ser (.int i)).length) := by
+  have hline : ∀ c ∈ (58 : UInt8) :: showInt i, c ≠ 13 := by
+    intro c hc
+    rcases List.mem_cons.mp hc with e | e
+    · subst e; decide
+    · exact showInt_no_cr i c e
+  have hser : ser (.int i) ++ rest = ((58 : UInt8) :: showInt i) ++ 13 :: 10 :: rest := by
+    simp [ser, crlf, List.append_assoc]
+  rw [hser]
+  unfold parseValue
+  rw [splitLine_line _ _ hline]
+  simp only
+  have h1 : ((58 : UInt8) == 43) = false := by decide
+  have h2 : ((58 : UInt8) == 45) = false := by decide
+  have h3 : ((58 : UInt8) == 36) = false := by decide
+  have h4 : ((58 : UInt8) == 58) = true := by decide
+  simp only [h1, h2, h3, h4, Bool.false_eq_true, ↓reduceIte, lineCount, List.drop_succ_cons, List.drop_zero,
+    parseInt64_showInt i h]
+  simp [ser, crlf]
+  omega
+
+mutual
+  /-- **Reply framing and binary safety (RESP2).** The bytes the serializer writes for a reply are read
+      back as exactly one value — that value (status lines with CR / LF replaced by spaces, bulk strings
+      byte for byte, whatever they contain), consuming exactly those bytes, whatever follows. -/
+  theorem parse_ser : ∀ (v : Value), v.wire = true → ∀ (fuel pos : Nat) (rest : Bytes), need v ≤ fuel →
+      parseValue fuel false (ser v ++ rest) pos = .ok (canon v) rest (pos + (ser v).length)
+    | .simple s, _, fuel, pos, rest, hf => by
+      obtain ⟨f, rfl⟩ : ∃ f, fuel = f + 1 := ⟨fuel - 1, by simp [need] at hf; omega⟩
+      exact parse_simple s rest f pos
+    | .error s, _, fuel, pos, rest, hf => by
+      obtain ⟨f, rfl⟩ : ∃ f, fuel = f + 1 := ⟨fuel - 1, by simp [need] at hf; omega⟩
+      exact parse_error s rest f pos
+    | .nil, _, fuel, pos, rest, hf => by
+      obtain ⟨f, rfl⟩ : ∃ f, fuel = f + 1 := ⟨fuel - 1, by simp [need] at hf; omega⟩
+      exact parse_nil rest f pos
+    | .int i, hw, fuel, pos, rest, hf => by
+      obtain ⟨f, rfl⟩ : ∃ f, fuel = f + 1 := ⟨fuel - 1, by simp [need] at hf; omega⟩
+      exact parse_int i rest f pos (by simpa [Value.wire] using hw)
+    | .bulk b, hw, fuel, pos, rest, hf => by
+      obtain ⟨f, rfl⟩ : ∃ f, fuel = f + 1 := ⟨fuel - 1, by simp [need] at hf; omega⟩
+      exact parse_bulk b rest f pos (by simpa [Value.wire] using hw)
+    | .array xs, hw, fuel, pos, rest, hf => by
+      simp only [Value.wire, Bool.and_eq_true, decide_eq_true_eq] at hw
+      obtain ⟨f, rfl⟩ : ∃ f, fuel = f + 1 := ⟨fuel - 1, by simp [need] at hf; omega⟩
+      have hf' : needList xs ≤ f := by simp only [need] at hf; omega
+      obtain ⟨_, hall, hne, _⟩ := natDigits_spec xs.length
+      have hline : ∀ c ∈ (42 : UInt8) :: natDigits xs.length, c ≠ 13 := by
+        intro c hc
+        rcases List.mem_cons.mp hc with e | e
+        · subst e; decide
+        · exact (hall c e).2
+      have henc : ser (.array xs) ++ rest =
+          ((42 : UInt8) :: natDigits xs.length) ++ 13 :: 10 :: (serList xs ++ rest) := by
+        simp [ser, serLen, crlf, List.append_assoc]
+      rw [henc]
+      unfold parseValue
+      rw [splitLine_line _ _ hline]
+      simp only
+      have h1 : ((42 : UInt8) == 43) = false := by decide
+      have h2 : ((42 : UInt8) == 45) = false := by decide
+      have h3 : ((42 : UInt8) == 36) = false := by decide
+      have h4 : ((42 : UInt8) == 58) = false := by decide
+      have h5 : ((42 : UInt8) == 42) = true := by decide
+      simp only [h1, h2, h3, h4, h5, Bool.false_eq_true, ↓reduceIte]
+      have hq : ((42 : UInt8) :: natDigits xs.length == sb "*?") = false := by
+        rw [sb_starq]
+        simp only [List.cons_beq_cons, beq_self_eq_true, Bool.true_and]
+        exact digits_ne_q xs.length
+      simp only [hq, Bool.false_eq_true, ↓reduceIte, lineCount, List.drop_succ_cons, List.drop_zero,
+        parseInt64_natDigits xs.length hw.1]
+      have hnn : ¬ ((xs.length : Int) < 0) := by omega
+      simp only [hnn, ↓reduceIte, Int.toNat_natCast, makeCrashes, Bool.false_eq_true]
+      rw [parseN_ser xs hw.2 f _ rest [] hf']
+      simp [ser, serLen, crlf, canon]
+      omega
+    | .double _, hw, _, _, _, _ | .bool _, hw, _, _, _, _ | .big _, hw, _, _, _, _ | .verbatim _ _, hw, _, _, _, _
+    | .blobErr _, hw, _, _, _, _ | .map _, hw, _, _, _, _ | .pairs _, hw, _, _, _, _ | .set _, hw, _, _, _, _
+    | .attr _, hw, _, _, _, _ | .null, hw, _, _, _, _ | .push _ _, hw, _, _, _, _ | .endMark, hw, _, _, _, _ => by
+      simp [Value.wire] at hw
+  theorem parseN_ser : ∀ (xs : List Value), Value.allWire xs = true → ∀ (fuel pos : Nat) (rest : Bytes) (acc : List Value),
+      needList xs ≤ fuel →
+      parseN fuel xs.length (serList xs ++ rest) pos acc =
+        .ok (acc.reverse ++ canonList xs) rest (pos + (serList xs).length)
+    | [], _, fuel, pos, rest, acc, hf => by
+      obtain ⟨f, rfl⟩ : ∃ f, fuel = f + 1 := ⟨fuel - 1, by simp [needList] at hf; omega⟩
+      simp [parseN, serList, canonList]
+    | x :: xs, hw, fuel, pos, rest, acc, hf => by
+      simp only [Value.allWire, Bool.and_eq_true] at hw
+      obtain ⟨f, rfl⟩ : ∃ f, fuel = f + 1 := ⟨fuel - 1, by simp [needList] at hf; omega⟩
+      have hf1 : need x ≤ f := by simp only [needList] at hf; omega
+      have hf2 : needList xs ≤ f := by simp only [needList] at hf; omega
+      simp only [serList, List.length_cons, List.append_assoc]
+      unfold parseN
+      simp only
+      rw [parse_ser x hw.1 f pos _ hf1]
+      simp only
+      rw [parseN_ser xs hw.2 f _ rest (canon x :: acc) hf2]
+      simp [canonList, List.length_append, Nat.add_assoc]
+end
+
+mutual
+  theorem need_le_len : ∀ (v : Value), v.wire = true → need v ≤ (ser v).length
+    | .simple _, _ | .error _, _ | .int _, _ | .bulk _, _ => by simp [need, ser, serLen, crlf]
+    | .nil, _ => by simp [need, ser, sb_nil]
+    | .array xs, hw => by
+      simp only [Value.wire, Bool.and_eq_true] at hw
+      have := needList_le_len xs hw.2
+      simp only [need, ser, serLen, crlf, List.length_append, List.length_cons, List.length_nil]
+      omega
+    | .double _, hw | .bool _, hw | .big _, hw | .verbatim _ _, hw | .blobErr _, hw | .map _, hw | .pairs _, hw
+    | .set _, hw | .attr _, hw | .null, hw | .push _ _, hw | .endMark, hw => by simp [Value.wire] at hw
+  theorem needList_le_len : ∀ (xs : List Value), Value.allWire xs = true → needList xs ≤ (serList xs).length + 1
+    | [], _ => by simp [needList, serList]
+    | x :: xs, hw => by
+      simp only [Value.allWire, Bool.and_eq_true] at hw
+      have h1 := need_le_len x hw.1
+      have h2 := needList_le_len xs hw.2
+      have h3 : 1 ≤ (ser x).length := by
+        have : 1 ≤ need x := by cases x <;> simp [need]
+        omega
+      simp only [needList, serList, List.length_append]
+      omega
+end
+
+/-- **Every RESP2 reply is exactly one well-formed value on the wire.** Whatever follows it in the stream,
+    a reader takes the serialized reply for one complete value — the reply itself, bulk strings byte for
+    byte — and finds the next reply right behind it. -/
+theorem reply_is_one_value (v : Value) (hw : v.wire = true) (rest : Bytes) :
+    parseRes (ser v ++ rest) = .complete (canon v) (ser v).length := by
+  unfold parseRes parse
+  have hf : need v ≤ (ser v ++ rest).length + 1 := by
+    have := need_le_len v hw
+    simp only [List.length_append]; omega
+  rw [parse_ser v hw _ 0 rest hf]
+  simp
+
+/-- a pipeline of replies is read back as those replies, in order -/
+theorem replies_read_back (vs : List Value) :
+    ∀ (fuel pos : Nat) (acc : List Value), Value.allWire vs = true → needList vs ≤ fuel →
+      parseN fuel vs.length (serList vs) pos acc = .ok (acc.reverse ++ canonList vs) [] (pos + (serList vs).length) := by
+  intro fuel pos acc ha hf
+  have := parseN_ser vs ha fuel pos [] acc hf
+  simpa using this
+
 end RedisEmu
